@@ -36,7 +36,9 @@ EXTENDS Integers, Sequences, FiniteSets, TLC, Json, SequencesExt
 CONSTANT Dev
 
 Wrappers == {"none", "if", "foreach", "switch", "letc", "pc", "log", "msg"}
-Fails == {"print", "ifcond", "forlist", "css", "paramvalue", "letvalue", "switchsubject", "pluralsubject"}
+\* "modzero" fails through a Go run-time panic inside the interpreter (integer
+\* division by zero), the others through the interpreter's own error path
+Fails == {"print", "ifcond", "forlist", "css", "paramvalue", "letvalue", "switchsubject", "pluralsubject", "modzero", "modzeroif"}
 Depths == 0..3
 \* how the {call} that leads to the failing callee is written (depth > 0)
 CallShapes == {"plain", "vparams", "cparam"}
@@ -60,6 +62,8 @@ CallLines(shape) ==
 FailLines(f, depth) ==
   IF depth > 0 THEN <<"{call lib.d1 data=\"all\" /}">>
   ELSE CASE f = "print" -> <<"{$x.y}">>
+         [] f = "modzero" -> <<"{1 % ($x ? 1 : 0)}">>
+         [] f = "modzeroif" -> <<"{if 7 % ($x ? 1 : 0) == 1}", "t", "{/if}">>
          [] f = "ifcond" -> <<"{if $x.y}", "t", "{/if}">>
          [] f = "forlist" -> <<"{foreach $i in $x.y}", "{$i}", "{/foreach}">>
          [] f = "css" -> <<"{css $x.y, c}">>
@@ -139,7 +143,7 @@ Meaningful(d) == /\ (d.w1 = "none" => d.w2 = "none")
                  /\ (d.depth = 0 => d.shape = "plain")
                  /\ (d.twin # "none" => d.lead = 0 /\ d.w2 = "none")
                  /\ ~(d.f = "pluralsubject" /\ "msg" \in {d.w1, d.w2})   \* no msg inside msg
-                 /\ ~(d.f \in {"ifcond", "forlist", "switchsubject", "pluralsubject", "letvalue"} /\ "msg" \in {d.w1, d.w2})
+                 /\ ~(d.f \in {"ifcond", "forlist", "switchsubject", "pluralsubject", "letvalue", "modzeroif"} /\ "msg" \in {d.w1, d.w2})
 
 VARIABLES d, phase, bottomLine, frameFile, frameLine, reported
 
